@@ -57,7 +57,7 @@ Section R.
 Variable sqrtf : R -> R.
 
 Notation val := (@value R _ sqrtf 0).
-Notation cj := (@conj R _).
+Notation cj := (@cconj R _).
 
 Definition cval (w : Rvec) (e : fxR) (y : Rvec) : res extR :=
   match cj w e with Ok e' => val e' w y | Err er => Err er end.
